@@ -27,12 +27,16 @@ theorem parse_render {α} (cfg : Cfg α) (toks : List Tok) (hwf : WF toks = true
     parse cfg (render toks) = spec cfg toks :=
   parse_render_spaced cfg toks hwf (render toks) (render_nospace toks hwf)
 
-/-- **spec_position_is_index.** In the documented reading every non-empty marble of the token that
-starts at character index `(render pre).length` of the space-free string carries the time
-`index · timespan + shift` (all items of a group: the index of its opening parenthesis). -/
+/-- **spec_position_is_index.** In the documented reading every non-empty marble of a token carries the
+time `frame · timespan + shift`, where `frame` is the number of characters before the token that
+advance time — for a diagram within the documented syntax (no unbalanced parenthesis before it)
+that is exactly the index `(render pre).length` of the token's first character in the space-free
+string; all items of a group get the index of its opening parenthesis. -/
 theorem spec_position_is_index {α} (cfg : Cfg α) (pre post : List Tok) (t : Tok) (ms : List (Msg α))
     (h : spec cfg (pre ++ t :: post) = .ok ms) (m : List Char) (hm : m ∈ marblesOf t) (hne : m ≠ []) :
-    mapElement cfg (((render pre).length : Int) * cfg.timespan + cfg.shift) m ∈ ms := by
+    mapElement cfg ((frame pre : Int) * cfg.timespan + cfg.shift) m ∈ ms ∧
+    (noStray pre = true → frame pre = (render pre).length) := by
+  refine ⟨?_, frame_eq_length pre⟩
   obtain ⟨st', ms1, ms2, h2, rfl⟩ := specGo_append cfg pre (t :: post) 0 false ms h
   simp only [specGo, Nat.zero_add] at h2
   split at h2
@@ -46,6 +50,28 @@ theorem spec_position_is_index {α} (cfg : Cfg α) (pre post : List Tok) (t : To
         apply List.mem_append_left
         rw [List.mem_map]
         exact ⟨m, by simp [List.mem_filter, hm, hne], rfl⟩
+
+/-- **stray_parens_skipped.** Outside the documented syntax: a `)` outside a group and a `(` that is never
+closed are skipped WITHOUT advancing time (the regex matches nothing there), so what follows is
+timed as if the character were absent — but it still separates two value marbles. -/
+theorem stray_parens_skipped {α} (cfg : Cfg α) (pre post : List Tok)
+    (h1 : WF (pre ++ .strayClose :: post) = true) :
+    frame (pre ++ .strayClose :: post) = frame (pre ++ post) ∧
+    parse cfg (render (pre ++ .strayClose :: post)) = spec cfg (pre ++ .strayClose :: post) := by
+  refine ⟨?_, parse_render cfg _ h1⟩
+  induction pre with
+  | nil => simp [frame, width]
+  | cons t ts ih =>
+    have := ih (WF_cons t _ h1).2.1
+    simp only [List.cons_append, frame, this]
+
+/-- **parse_units.** The reading is independent of the time unit: with timespan and shift expressed in a
+unit `k` times finer (the harness passes float / timedelta / datetime timespans and shifts that are
+multiples of a quarter second and runs the model in quarter-second units, `k = 4`), ANY string
+parses to the same messages with all times multiplied by `k` — and to the same error. -/
+theorem parse_units {α} (k : Int) (cfg : Cfg α) (s : List Char) :
+    parse (scaleCfg k cfg) s = (parse cfg s).map (scaleMsgs k) :=
+  scan_scale k cfg _ 0 false
 
 /-- **spec_accepts.** Without a top-level comma, and when either `raise_stopped` is off or no marble
 follows a terminal one, the reading is exactly: every non-empty marble, in reading order, at
@@ -146,6 +172,10 @@ example : spec cfg0 toks0 =
   rfl
 example : parse cfg0 "- -1 2-( a,,3)- |".toList = spec cfg0 toks0 :=
   parse_render_spaced cfg0 toks0 (by decide) _ (by decide)
+/-- unbalanced parentheses: `a)b(c` — three separate marbles at frames 0, 1, 2 -/
+example : WF [.elem ['a'], .strayClose, .elem ['b'], .strayOpen, .elem ['c']] = true := by decide
+example : spec cfg0 [.elem ['a'], .strayClose, .elem ['b'], .strayOpen, .elem ['c']] =
+    .ok [(5, .next (.str ['a'])), (15, .next (.str ['b'])), (25, .next (.str ['c']))] := by rfl
 /-- hypotheses of `parse_rejects_after_terminal` are satisfiable: `a|(,)` -/
 example : parse cfg0 (render [.elem ['a'], .completed, .group [[], []]]) = .error .stopped :=
   parse_rejects_after_terminal cfg0 rfl _ (by decide) (by decide) [['a']] ['|'] [[], []] (by decide) (by decide) (by simp)
